@@ -13,10 +13,15 @@
 #include <pika/threading_base/thread_helpers.hpp>
 #include <pika/topology/topology.hpp>
 
+#include <pika/program_options.hpp>
+
+#include <chrono>
+#include <cstdarg>
 #include <cstdio>
 #include <cstdlib>
 #include <exception>
 #include <string>
+#include <thread>
 #include <typeinfo>
 #include <vector>
 
@@ -35,6 +40,23 @@ static std::string hex(std::string const& s)
 static std::vector<std::string> cfg_keys;
 static bool entered = false;
 
+// C16f: entry-point variants.  VERIF_ENTRY = argv (default: pika::init with f(int, char**), the
+// init_helper path), vm (pika::init with f(variables_map&): positional arguments are read from
+// vm["pika:positional"]), null (pika::start(nullptr, ...): no entry function, the application keeps
+// using its own argv; the report is produced by a task submitted from main).
+static std::string out_buf;
+static bool buffered = false;
+static void outf(char const* fmt, ...)
+{
+    char b[8192];
+    va_list ap;
+    va_start(ap, fmt);
+    std::vsnprintf(b, sizeof b, fmt, ap);
+    va_end(ap);
+    if (buffered) out_buf += b;
+    else std::fputs(b, stdout);
+}
+
 static std::string mask_str(pika::threads::detail::mask_cref_type m)
 {
     std::string r;
@@ -44,20 +66,43 @@ static std::string mask_str(pika::threads::detail::mask_cref_type m)
     return r.empty() ? std::string("-") : r;
 }
 
+static void report_runtime();
+
 static int entry(int argc, char** argv)
 {
     entered = true;
     std::printf("R entry %d\n", argc);
     for (int i = 0; i < argc; ++i) std::printf("R argv %d %s\n", i, hex(argv[i]).c_str());
+    report_runtime();
+    std::fflush(stdout);
+    pika::finalize();
+    return 0;
+}
 
-    std::printf("R workers %zu\n", pika::get_num_worker_threads());
+static int entry_vm(pika::program_options::variables_map& vm)
+{
+    entered = true;
+    std::vector<std::string> pos;
+    if (vm.count("pika:positional")) pos = vm["pika:positional"].as<std::vector<std::string>>();
+    std::printf("R entry %zu\n", pos.size() + 1);
+    std::printf("R argv 0 %s\n", hex("probe").c_str());
+    for (std::size_t i = 0; i < pos.size(); ++i) std::printf("R argv %zu %s\n", i + 1, hex(pos[i]).c_str());
+    report_runtime();
+    std::fflush(stdout);
+    pika::finalize();
+    return 0;
+}
+
+static void report_runtime()
+{
+    outf("R workers %zu\n", pika::get_num_worker_threads());
     auto& rp = pika::resource::get_partitioner();
     auto* pool = pika::this_thread::get_pool();
-    std::printf("R pool %s %zu\n", hex(pool->get_pool_name()).c_str(), pool->get_os_thread_count());
-    std::printf("R sched %d %s\n", int(rp.which_scheduler(pool->get_pool_name())),
+    outf("R pool %s %zu\n", hex(pool->get_pool_name()).c_str(), pool->get_os_thread_count());
+    outf("R sched %d %s\n", int(rp.which_scheduler(pool->get_pool_name())),
         hex(pool->get_scheduler()->get_description()).c_str());
     for (std::size_t i = 0; i < pika::get_num_worker_threads(); ++i)
-        std::printf("R mask %zu %s\n", i, mask_str(rp.get_pu_mask(i)).c_str());
+        outf("R mask %zu %s\n", i, mask_str(rp.get_pu_mask(i)).c_str());
 
     // a default task: thread_pool_scheduler with default properties (small stack)
     std::ptrdiff_t size = 0, avail = 0;
@@ -67,18 +112,15 @@ static int entry(int argc, char** argv)
         size = pika::threads::detail::get_self_stacksize();
         avail = pika::this_thread::get_available_stack_space();
     }));
-    std::printf("R stack %td %td\n", size, avail);
-    std::printf("R stacksizes %td %td %td %td\n",
+    outf("R stack %td %td\n", size, avail);
+    outf("R stacksizes %td %td %td %td\n",
         pika::detail::get_runtime().get_config().get_stack_size(pika::execution::thread_stacksize::small_),
         pika::detail::get_runtime().get_config().get_stack_size(pika::execution::thread_stacksize::medium),
         pika::detail::get_runtime().get_config().get_stack_size(pika::execution::thread_stacksize::large),
         pika::detail::get_runtime().get_config().get_stack_size(pika::execution::thread_stacksize::huge));
 
     for (auto const& k : cfg_keys)
-        std::printf("R cfg %s %s\n", k.c_str(), hex(pika::detail::get_config_entry(k, "<unset>")).c_str());
-    std::fflush(stdout);
-    pika::finalize();
-    return 0;
+        outf("R cfg %s %s\n", k.c_str(), hex(pika::detail::get_config_entry(k, "<unset>")).c_str());
 }
 
 int main(int argc, char** argv)
@@ -114,7 +156,37 @@ int main(int argc, char** argv)
     int rc = 0;
     try
     {
-        rc = pika::init(std::function<int(int, char**)>(&entry), argc, argv, p);
+        std::string kind = std::getenv("VERIF_ENTRY") ? std::getenv("VERIF_ENTRY") : "argv";
+        std::printf("R entrykind %s\n", kind.c_str());
+        if (kind == "vm")
+            rc = pika::init(std::function<int(pika::program_options::variables_map&)>(&entry_vm), argc, argv, p);
+        else if (kind == "null")
+        {
+            std::vector<std::string> own(argv, argv + argc);    // what the application itself sees
+            pika::start(nullptr, argc, argv, p);
+            // state-based wait (never a time limit): run_helper sets `running` on both of its paths
+            while (!pika::detail::is_running()) std::this_thread::sleep_for(std::chrono::milliseconds(1));
+            buffered = true;
+            namespace ex = pika::execution::experimental;
+            namespace tt = pika::this_thread::experimental;
+            tt::sync_wait(ex::schedule(ex::thread_pool_scheduler{}) | ex::then([] { report_runtime(); }));
+            buffered = false;
+            pika::finalize();
+            rc = pika::stop();
+            if (rc == 0)
+            {
+                entered = true;
+                std::printf("R entry %d\n", argc);
+                for (int i = 0; i < argc; ++i)
+                    std::printf("R argv %d %s\n", i, hex(argv[i]).c_str());
+                bool same = int(own.size()) == argc;
+                for (int i = 0; same && i < argc; ++i) same = own[i] == argv[i];
+                std::printf("R ownargv %d\n", int(same));
+                std::fputs(out_buf.c_str(), stdout);
+            }
+        }
+        else
+            rc = pika::init(std::function<int(int, char**)>(&entry), argc, argv, p);
         std::printf("R rc %d %d\n", rc, int(entered));
     }
     catch (std::exception const& e)
